@@ -130,35 +130,52 @@ func c09Stts(c *vf.Ctx, t *tableref.Tables) {
 	})
 }
 
+// c09Shapes lists (n, composition of n) pairs: the unit of parallel work; tables are enumerated inside each shape and
+// never held in memory together.
+type c09Shape struct {
+	N     int
+	Parts []int
+}
+
+func c09Shapes(maxN int) []c09Shape {
+	var out []c09Shape
+	for n := 1; n <= maxN; n++ {
+		enum.Compositions(n, func(parts []int) {
+			out = append(out, c09Shape{n, append([]int{}, parts...)})
+		})
+	}
+	return out
+}
+
 func c09EnumStts(c *vf.Ctx, maxN int) {
 	// 2^31 and 2^32-1: two samples of such a run already exceed 32 bits
 	deltas := []int64{1, 2, 3, 0x80000000, 0xffffffff}
-	var jobs []tableref.Tables
-	for n := 1; n <= maxN; n++ {
-		enum.Compositions(n, func(parts []int) {
-			p := append([]int{}, parts...)
-			enum.Tuples(len(p), len(deltas), func(t []int) {
-				tb := tableref.Tables{StszCount: uint32(n), StszUniform: 1}
-				for i, cnt := range p {
-					tb.Stts = append(tb.Stts, tableref.Run{Count: uint32(cnt), Value: deltas[t[i]]})
-				}
-				jobs = append(jobs, tb)
-				// variant: a final single zero-duration sample
-				if p[len(p)-1] == 1 && t[len(p)-1] == 0 {
-					z := tableref.Tables{StszCount: uint32(n), StszUniform: 1, Stts: append([]tableref.Run{}, tb.Stts...)}
-					z.Stts[len(z.Stts)-1].Value = 0
-					jobs = append(jobs, z)
-				}
-			})
+	shapes := c09Shapes(maxN)
+	var total atomic.Int64
+	c.Parallel(len(shapes), func(si int) {
+		n, p := shapes[si].N, shapes[si].Parts
+		var cnt int64
+		enum.Tuples(len(p), len(deltas), func(t []int) {
+			tb := tableref.Tables{StszCount: uint32(n), StszUniform: 1}
+			for i, k := range p {
+				tb.Stts = append(tb.Stts, tableref.Run{Count: uint32(k), Value: deltas[t[i]]})
+			}
+			c09Stts(c, &tb)
+			cnt++
+			// variant: a final single zero-duration sample
+			if p[len(p)-1] == 1 && t[len(p)-1] == 0 {
+				z := tableref.Tables{StszCount: uint32(n), StszUniform: 1, Stts: append([]tableref.Run{}, tb.Stts...)}
+				z.Stts[len(z.Stts)-1].Value = 0
+				c09Stts(c, &z)
+				cnt++
+			}
 		})
-	}
-	c.Parallel(len(jobs), func(i int) {
-		c09Stts(c, &jobs[i])
-		c.Evals.Add(1)
-		c.DistinctN.Add(1)
+		c.Evals.Add(cnt)
+		c.DistinctN.Add(cnt)
+		total.Add(cnt)
 	})
-	c.Add("stts_tables", int64(len(jobs)))
-	c.Sample(c09Case{Kind: "stts", Tables: jobs[len(jobs)/2]})
+	c.Add("stts_tables", total.Load())
+	c.Sample(c09Case{Kind: "stts", Tables: tableref.Tables{StszCount: 3, StszUniform: 1, Stts: []tableref.Run{{Count: 2, Value: 0x80000000}, {Count: 1, Value: 3}}}})
 }
 
 // ---- ctts
@@ -186,40 +203,39 @@ func c09Ctts(c *vf.Ctx, t *tableref.Tables) {
 }
 
 func c09EnumCtts(c *vf.Ctx, maxN int) {
-	var jobs []tableref.Tables
-	for ver := byte(0); ver <= 1; ver++ {
+	shapes := c09Shapes(maxN)
+	var total atomic.Int64
+	c.Parallel(2*len(shapes), func(k int) {
+		ver := byte(k % 2)
+		n, p := shapes[k/2].N, shapes[k/2].Parts
 		offs := []int64{0, 1, 2}
 		if ver == 1 {
 			offs = []int64{0, 1, -1}
 		}
-		for n := 1; n <= maxN; n++ {
-			enum.Compositions(n, func(parts []int) {
-				p := append([]int{}, parts...)
-				enum.Tuples(len(p), len(offs), func(t []int) {
-					base := tableref.Tables{StszCount: uint32(n), StszUniform: 1, CttsVersion: ver, Stts: []tableref.Run{{Count: uint32(n), Value: 1}}}
-					for i, cnt := range p {
-						base.Ctts = append(base.Ctts, tableref.Run{Count: uint32(cnt), Value: offs[t[i]]})
-					}
-					jobs = append(jobs, base)
-					// zero-count run inserted at each position (value 2/-2 so that it is visible if used)
-					for pos := 0; pos <= len(p); pos++ {
-						z := base
-						z.Ctts = append([]tableref.Run{}, base.Ctts[:pos]...)
-						z.Ctts = append(z.Ctts, tableref.Run{Count: 0, Value: 7})
-						z.Ctts = append(z.Ctts, base.Ctts[pos:]...)
-						jobs = append(jobs, z)
-					}
-				})
-			})
-		}
-	}
-	c.Parallel(len(jobs), func(i int) {
-		c09Ctts(c, &jobs[i])
-		c.Evals.Add(1)
-		c.DistinctN.Add(1)
+		var cnt int64
+		enum.Tuples(len(p), len(offs), func(t []int) {
+			base := tableref.Tables{StszCount: uint32(n), StszUniform: 1, CttsVersion: ver, Stts: []tableref.Run{{Count: uint32(n), Value: 1}}}
+			for i, kk := range p {
+				base.Ctts = append(base.Ctts, tableref.Run{Count: uint32(kk), Value: offs[t[i]]})
+			}
+			c09Ctts(c, &base)
+			cnt++
+			// zero-count run inserted at each position (value 7 so that it is visible if used)
+			for pos := 0; pos <= len(p); pos++ {
+				z := base
+				z.Ctts = append([]tableref.Run{}, base.Ctts[:pos]...)
+				z.Ctts = append(z.Ctts, tableref.Run{Count: 0, Value: 7})
+				z.Ctts = append(z.Ctts, base.Ctts[pos:]...)
+				c09Ctts(c, &z)
+				cnt++
+			}
+		})
+		c.Evals.Add(cnt)
+		c.DistinctN.Add(cnt)
+		total.Add(cnt)
 	})
-	c.Add("ctts_tables", int64(len(jobs)))
-	c.Sample(c09Case{Kind: "ctts", Tables: jobs[len(jobs)/3]})
+	c.Add("ctts_tables", total.Load())
+	c.Sample(c09Case{Kind: "ctts", Tables: tableref.Tables{StszCount: 3, StszUniform: 1, CttsVersion: 1, Stts: []tableref.Run{{Count: 3, Value: 1}}, Ctts: []tableref.Run{{Count: 1, Value: -1}, {Count: 0, Value: 7}, {Count: 2, Value: 1}}}})
 }
 
 // ---- stsc
@@ -320,29 +336,34 @@ func c09Stsc(c *vf.Ctx, t *tableref.Tables) {
 }
 
 func c09EnumStsc(c *vf.Ctx, maxN int) {
-	var jobs []tableref.Tables
-	for n := 1; n <= maxN; n++ {
-		enum.Compositions(n, func(parts []int) {
-			p := append([]int{}, parts...)
-			stscEncodings(p, func(e []tableref.StscEntry) {
-				tb := tableref.Tables{StszCount: uint32(n), StszUniform: 1, Stts: []tableref.Run{{Count: uint32(n), Value: 1}},
-					Stsc: append([]tableref.StscEntry{}, e...), Offsets: make([]uint64, len(p))}
-				off := uint64(100)
-				for i, cnt := range p {
-					tb.Offsets[i] = off
-					off += uint64(cnt) + 3
-				}
-				jobs = append(jobs, tb)
-			})
+	shapes := c09Shapes(maxN)
+	var total atomic.Int64
+	var sample atomic.Value
+	c.Parallel(len(shapes), func(si int) {
+		n, p := shapes[si].N, shapes[si].Parts
+		var cnt int64
+		stscEncodings(p, func(e []tableref.StscEntry) {
+			tb := tableref.Tables{StszCount: uint32(n), StszUniform: 1, Stts: []tableref.Run{{Count: uint32(n), Value: 1}},
+				Stsc: append([]tableref.StscEntry{}, e...), Offsets: make([]uint64, len(p))}
+			off := uint64(100)
+			for i, k := range p {
+				tb.Offsets[i] = off
+				off += uint64(k) + 3
+			}
+			c09Stsc(c, &tb)
+			cnt++
+			if n == 4 && len(p) == 3 && cnt == 2 {
+				sample.Store(tb)
+			}
 		})
-	}
-	c.Parallel(len(jobs), func(i int) {
-		c09Stsc(c, &jobs[i])
-		c.Evals.Add(1)
-		c.DistinctN.Add(1)
+		c.Evals.Add(cnt)
+		c.DistinctN.Add(cnt)
+		total.Add(cnt)
 	})
-	c.Add("stsc_tables", int64(len(jobs)))
-	c.Sample(c09Case{Kind: "stsc", Tables: jobs[len(jobs)/2]})
+	c.Add("stsc_tables", total.Load())
+	if v := sample.Load(); v != nil {
+		c.Sample(c09Case{Kind: "stsc", Tables: v.(tableref.Tables)})
+	}
 }
 
 // ---- stsz, stco/co64, stss, sdtp
@@ -351,26 +372,39 @@ func c09Small(c *vf.Ctx, maxN int) {
 	var n64 int64
 	// stsz
 	sizes := []uint32{1, 2, 3, 0x80000000, 0xffffffff} // incl. sizes whose sums exceed 32 bits
+	var stszN atomic.Int64
+	// shards: (n, first size) ; the tables of a shard are enumerated and checked one at a time
+	type stszShard struct{ n, first int }
+	var stszShards []stszShard
 	for n := 1; n <= maxN; n++ {
-		var tabs []tableref.Tables
-		for _, u := range sizes {
-			tabs = append(tabs, tableref.Tables{StszCount: uint32(n), StszUniform: u})
+		for f := -1; f < len(sizes); f++ {
+			stszShards = append(stszShards, stszShard{n, f})
 		}
-		enum.Tuples(n, len(sizes), func(t []int) {
-			tb := tableref.Tables{StszCount: uint32(n)}
-			for _, i := range t {
-				tb.StszSizes = append(tb.StszSizes, sizes[i])
+	}
+	c.Parallel(len(stszShards), func(si int) {
+		n, first := stszShards[si].n, stszShards[si].first
+		each := func(fn func(t *tableref.Tables)) {
+			if first < 0 { // the uniform tables
+				for _, u := range sizes {
+					fn(&tableref.Tables{StszCount: uint32(n), StszUniform: u})
+				}
+				return
 			}
-			tabs = append(tabs, tb)
-		})
-		for ti := range tabs {
-			t := &tabs[ti]
-			n64++
+			enum.Tuples(n-1, len(sizes), func(t []int) {
+				tb := tableref.Tables{StszCount: uint32(n), StszSizes: []uint32{sizes[first]}}
+				for _, i := range t {
+					tb.StszSizes = append(tb.StszSizes, sizes[i])
+				}
+				fn(&tb)
+			})
+		}
+		each(func(t *tableref.Tables) {
+			stszN.Add(1)
 			det := func() interface{} { return c09Case{Kind: "stsz", Tables: *t} }
 			bx, err := decodeBoxSR(t.StszBytes())
 			if err != nil {
 				c.Fail("stsz decode", "consistent stsz decodes", det())
-				continue
+				return
 			}
 			stsz := bx.(*mp4.StszBox)
 			size := func(i int) uint32 {
@@ -399,8 +433,9 @@ func c09Small(c *vf.Ctx, maxN int) {
 					}
 				}
 			})
-		}
-	}
+		})
+	})
+	n64 += stszN.Load()
 	// stco / co64
 	for _, co64 := range []bool{false, true} {
 		for m := 1; m <= maxN; m++ {
